@@ -26,8 +26,10 @@ class SimClock(object):
         self.now += s
 
 
-OK, LOSE_CMD, LOSE_RSP, CORRUPT_CMD, CORRUPT_RSP, PROTOCOL_ERR = range(6)
-FATE_NAMES = ["ok", "lose_cmd", "lose_rsp", "corrupt_cmd", "corrupt_rsp", "protocol_err"]
+OK, LOSE_CMD, LOSE_RSP, CORRUPT_CMD, CORRUPT_RSP, PROTOCOL_ERR, NOISE = range(7)
+# NOISE: a noise burst garbles the command on its way to the tag (not executed) and the reader receives the noise as a
+# frame with a CRC error (TransmissionError) instead of running into its timeout
+FATE_NAMES = ["ok", "lose_cmd", "lose_rsp", "corrupt_cmd", "corrupt_rsp", "protocol_err", "noise"]
 
 
 class SimDevice(object):
@@ -150,10 +152,12 @@ class SimDevice(object):
             rsp = None
         else:
             fate_name = FATE_NAMES[fate]
-            if fate in (LOSE_CMD, CORRUPT_CMD) or data is None:
+            if fate in (LOSE_CMD, CORRUPT_CMD, NOISE) or data is None:
                 rsp = None
-                if fate == CORRUPT_CMD:
+                if fate in (CORRUPT_CMD, NOISE):
                     tag.garbage()
+                elif hasattr(tag, "idle"):
+                    tag.idle()
             else:
                 self.commands_seen += 1
                 before = tag.state_changes
@@ -177,6 +181,9 @@ class SimDevice(object):
                         fate_name = "cut"
         if self.keep_log:
             self.log.append((idx, fate_name, data, rsp))
+        if fate == NOISE and fate_name == "noise":
+            self.clock.advance(min(timeout, 0.001))
+            raise clf.TransmissionError("sim: noise")
         if fate_name in ("removed", "cut") or rsp is None or fate in (LOSE_CMD, LOSE_RSP, CORRUPT_CMD):
             self.clock.advance(timeout)
             raise clf.TimeoutError("sim: no response")
